@@ -327,6 +327,60 @@ pub fn add_mutants(u: &mut Universe, src: &mut Src, per_adt: usize, max_subjects
     }
 }
 
+/// For every zero-copy definition (up to `max`): two copies that differ from each other only in the
+/// argument of `repr(align(N))` (16 vs 32), with retargeted subjects paired with each other and with the
+/// original. Sizes usually coincide, so only the attribute text tells them apart.
+pub fn add_align_pairs(u: &mut Universe, max: usize) {
+    let n_orig = u.adts.len();
+    let orig_subjects = u.subjects.clone();
+    let mut done = 0;
+    for i in 0..n_orig {
+        if done >= max || !u.adts[i].is_zero() || u.adts[i].mutant_of.is_some() {
+            continue;
+        }
+        let mut ids = vec![];
+        for (k, a) in [16usize, 32].iter().enumerate() {
+            let mut d = u.adts[i].clone();
+            d.reprs.retain(|r| !r.starts_with("align("));
+            d.reprs.push(format!("align({})", a));
+            d.module = format!("al{}_{}", i, k);
+            d.mutant_of = Some(i);
+            d.mutation = Some(format!("repr(align({})) set", a));
+            u.adts.push(d);
+            ids.push(u.adts.len() - 1);
+        }
+        let mut added = 0;
+        for (si, s) in orig_subjects.iter().enumerate() {
+            if added >= 2 {
+                break;
+            }
+            if !mentions_adt(u, s, i) {
+                continue;
+            }
+            let ts: Vec<Ty> = ids.iter().map(|n| retarget(s, i, *n)).collect();
+            if ts.iter().any(|t| !valid_closed(u, t) || crate::gen::has_zst_block(u, t)) {
+                continue;
+            }
+            let mut idx = vec![si];
+            for t in ts {
+                let ti = match u.subjects.iter().position(|x| *x == t) {
+                    Some(p) => p,
+                    None => {
+                        u.subjects.push(t);
+                        u.subjects.len() - 1
+                    }
+                };
+                idx.push(ti);
+            }
+            u.pairs.push((idx[0], idx[1]));
+            u.pairs.push((idx[0], idx[2]));
+            u.pairs.push((idx[1], idx[2]));
+            added += 1;
+        }
+        done += 1;
+    }
+}
+
 /// Near-miss variants of a built-in closed type (sequence kind, array length, tuple arity, same-size
 /// primitive, option/bound), each a valid closed type.
 pub fn builtin_near_misses(u: &Universe, t: &Ty) -> Vec<Ty> {
@@ -352,18 +406,28 @@ pub fn builtin_near_misses(u: &Universe, t: &Ty) -> Vec<Ty> {
     }
     // one level down
     match t {
-        Ty::Vec(e) | Ty::BoxSlice(e) | Ty::Option(e) | Ty::Bound(e) => {
+        Ty::Vec(e) | Ty::BoxSlice(e) | Ty::Option(e) | Ty::Bound(e) | Ty::Array(e, _) => {
             for m in builtin_near_misses(u, e) {
                 let cand = match t {
                     Ty::Vec(_) => Ty::vec(m),
                     Ty::BoxSlice(_) => Ty::bslice(m),
                     Ty::Option(_) => Ty::opt(m),
+                    Ty::Array(_, n) => Ty::Array(Box::new(m), *n),
                     _ => Ty::bound(m),
                 };
                 out.push(cand);
             }
         }
         _ => {}
+    }
+    // zero-length arrays: the element type is still part of the type
+    if let Ty::Array(e, _) = t {
+        if t.array_len() > 0 {
+            out.push(Ty::Array(e.clone(), CExpr::Lit(CVal::Usize(0))));
+            for m in builtin_near_misses(u, e).into_iter().take(1) {
+                out.push(Ty::Array(Box::new(m), CExpr::Lit(CVal::Usize(0))));
+            }
+        }
     }
     out.retain(|x| valid_closed(u, x) && !crate::gen::has_zst_block(u, x));
     out
@@ -512,4 +576,28 @@ impl<'a> Model<'a> {
             _ => self.u.components(t).iter().any(|c| self.has_zero_adt_under_bound(c)),
         }
     }
+}
+
+/// Instantiations that differ from `t` only in the value of one const generic argument of its outermost
+/// user type (valid closed types only).
+pub fn const_value_variants(u: &Universe, t: &Ty) -> Vec<Ty> {
+    let Ty::Adt(i, args) = t else { return vec![] };
+    let mut out = vec![];
+    for (k, a) in args.iter().enumerate() {
+        if let Arg::Const(CExpr::Lit(c)) = a {
+            let alt = match c {
+                CVal::Usize(n) => CVal::Usize(if *n >= 4 { n - 1 } else { n + 1 }),
+                CVal::Bool(b) => CVal::Bool(!b),
+                CVal::Char(ch) => CVal::Char(if *ch == 'a' { 'b' } else { 'a' }),
+                CVal::I8(x) => CVal::I8(x.wrapping_add(1)),
+            };
+            let mut a2 = args.clone();
+            a2[k] = Arg::Const(CExpr::Lit(alt));
+            let cand = Ty::Adt(*i, a2);
+            if valid_closed(u, &cand) && !crate::gen::has_zst_block(u, &cand) {
+                out.push(cand);
+            }
+        }
+    }
+    out
 }
